@@ -17,6 +17,30 @@ COQ_IMPORTS = ("From Coq Require Import List ZArith Bool.\n"
                "Model.C07Ops Model.C07Harness Model.C07Ops2 Model.C07Harness2 Np.NpZ Gen.GenUtils Model.C07Gen "
                "Np.NpZ2 Np.NpZ3 Np.NpZ3b Gen.GenUtils3b Model.C07Req Model.C07Impl Model.C07W5 "
                "Gen.GenSptensor4 Gen.GenSptensor4d Gen.GenKtensor4 Model.W4Ktensor Model.W4Sptensor Model.C07Gen4.\n")
+def _finding_open(fid):
+    """status of one of C07's own findings (findings.d/C07.jsonl); decides whether the trigger / witness of the finding exist"""
+    import json
+    import os
+    fn = os.path.join(os.path.dirname(os.path.abspath(__file__)), "..", "..", "findings.d", "C07.jsonl")
+    try:
+        for line in open(fn):
+            if line.strip():
+                j = json.loads(line)
+                if j.get("finding_id") == fid:
+                    return j.get("status", "open") == "open"
+    except OSError:
+        pass
+    return False
+
+
+# N-C07-7 (sptensor.squeeze drops size-0 modes).  The comparer demands ONE behaviour on holders with a size-0 mode at any time: the
+# size-0 modes are kept (squeeze_sp_any), through the demanded-behaviour model, the repaired return statements (squeeze_sp_impl_ne), the
+# GENERATED sptensor.squeeze of this run and the text probe sq_text_keeps_zero.  While the finding is open (findings.d/C07.jsonl) the
+# mismatches of exactly that class are attributed to it (trigger + witness); once it is flipped to fixed there is no trigger and no
+# witness: the class is an ordinary stream class, the witness input (shape (2,0,1) out of to_sptensor()) stays its first case, and a
+# tree that still tests `shape > 1` is reported as a VIOLATION.
+N7_OPEN = _finding_open("N-C07-7")
+
 RULE = ("permute: all N! orders for N<=4 (seeded sample for N=5) on shapes with distinct sizes (2,3,4,5), repeated sizes and "
         "singletons, for dense / sparse / Kruskal (rank 0..3) / Tucker with a dense core / Tucker with a sparse core (core <= "
         "2x2x2x2, stored order sorted|reversed|random, empty core included) holders; reshape: every ordered factorisation "
@@ -64,8 +88,12 @@ EXPLANATION = ("Theorems (Props/C07.v) are over the hand-written models Model/C0
                "the transliteration of sptensor.reshape as written after /repo b27c529 (mode-number test, size-sign test, size "
                "check, empty branch, generated tt_sub2ind / tt_ind2sub; Props/C07w5.v bridges it to the request-level "
                "specification); dense squeeze follows the repaired `shape != 1` tests (size-0 modes are kept); boolean orders "
-               "are refused by sparse / dense / Tucker holders and read as 1 / 0 by ktensor.permute. Open finding N-C07-7 "
-               "(sptensor.squeeze with a size-0 mode) is attributed only on squeeze_sp of a shape with a 0.")
+               "are refused by sparse / dense / Tucker holders and read as 1 / 0 by ktensor.permute. Sixth wave: sparse squeeze on "
+               "holders with a size-0 mode demands ONE behaviour (the size-0 modes are kept) through squeeze_sp_any, the repaired return "
+               "statements squeeze_sp_impl_ne, the generated sptensor.squeeze of this run and the text probe sq_text_keeps_zero; "
+               + ("finding N-C07-7 (sptensor.squeeze tests `shape > 1`) is OPEN: mismatches are attributed only on squeeze_sp of a shape with a 0."
+                  if N7_OPEN else
+                  "finding N-C07-7 is repaired (sptensor.squeeze tests `shape != 1`): no trigger, no witness, the class is an ordinary stream class."))
 CORRESPONDENCE_ONLY = []
 ASSUMPTIONS = ["numpy transpose / F-order reshape / squeeze semantics as defined in Np/Array.v (np_transpose, np_reshapeF)",
                "np.ravel_multi_index / np.unravel_index / negative-index wrap as defined in Np/NpZ.v (used by the generated "
@@ -1654,17 +1682,22 @@ def coq_check(c, o):
             if not tgen.all_int(ob["vals"]) or ob["nnz"] != len(ob["subs"]):
                 return "false"
             fin = f"(SqT {tgen.gsparse(ob['shape'], ob['subs'], ob['vals'])})"
-        if 0 in a["shape"]:
-            # a holder with a size-0 mode (out of tensor.to_sptensor()): the demanded behaviour only (Model/C07W5.v squeeze_sp_any:
-            # the size-0 modes are kept, like tensor.squeeze); the code as written still tests `shape > 1`: open N-C07-7
-            return f"sqs_ok (squeeze_sp_any 0%Z {S}) {fin}"
-        # demanded behaviour on every shape, operation model and sptensor.squeeze's return statements as written (Model/C07Impl.v)
-        # ... and the GENERATED whole method (Gen/GenSptensor4b.v through Model/C07Gen4.v sptensor_squeeze_res)
         es, ev = _eff_sparse(a, o)
         Zs = f"(mkspt {gzmat(es)} {gzlist(ev)} {gzlist(a['shape'])})"
-        return (f"andb (andb (andb (sqs_ok (squeeze_sp_any 0%Z {S}) {fin}) (sqs_ok (squeeze_sp 0%Z {S}) {fin})) "
-                f"(match squeeze_sp_impl 0%Z {S} with Some r => sqs_ok r {fin} | None => false end)) "
-                f"(match sptensor_squeeze_res {Zs} with Some r => sqs_ok r {fin} | None => false end)")
+        gen = f"(match sptensor_squeeze_res {Zs} with Some r => sqs_ok r {fin} | None => false end)"
+        ne = f"(match squeeze_sp_impl_ne 0%Z {S} with Some r => sqs_ok r {fin} | None => false end)"
+        if 0 in a["shape"]:
+            # a holder with a size-0 mode (out of tensor.to_sptensor()): ONE accepted behaviour — the size-0 modes are kept, like
+            # tensor.squeeze — through the demanded-behaviour model (Model/C07W5.v squeeze_sp_any), the return statements with the
+            # repaired test `shape != 1` (Model/C07Gen4.v squeeze_sp_impl_ne), the GENERATED sptensor.squeeze of this run and the
+            # probe of the regenerated text (sq_text_keeps_zero: C07_squeeze_sparse_zero_mode_generated then speaks about
+            # squeeze_sp_any).  A tree that still tests `shape > 1` fails all of them: N-C07-7 (attributed while the finding is open)
+            return f"andb (andb (andb (sqs_ok (squeeze_sp_any 0%Z {S}) {fin}) {ne}) {gen}) sq_text_keeps_zero"
+        # demanded behaviour on every shape, operation model, sptensor.squeeze's return statements with either singleton test
+        # (Model/C07Impl.v `> 1`, Model/C07Gen4.v `!= 1`: the same on positive sizes) and the GENERATED whole method
+        # (Gen/GenSptensor4b.v through Model/C07Gen4.v sptensor_squeeze_res)
+        return (f"andb (andb (andb (andb (sqs_ok (squeeze_sp_any 0%Z {S}) {fin}) (sqs_ok (squeeze_sp 0%Z {S}) {fin})) "
+                f"(match squeeze_sp_impl 0%Z {S} with Some r => sqs_ok r {fin} | None => false end)) {ne}) {gen}")
     raise ValueError(c.op)
 
 
@@ -2050,7 +2083,8 @@ def oracle(c, o):
 
 
 # ---------------------------------------------------------------------------------------- known findings
-# OPEN: N-C07-7 (found in wave 5) sptensor.squeeze with a size-0 mode — the sparse sibling of the repaired N-C07-6: the tests
+# N-C07-7 (found in wave 5; trigger and witness exist only while findings.d/C07.jsonl lists it as open — N7_OPEN above — and vanish
+# with the flip: fixes/C07-N-C07-7.diff, /tmp/fixwt f390850) sptensor.squeeze with a size-0 mode — the sparse sibling of the repaired N-C07-6: the tests
 # `shape > 1` treat a size-0 mode like a singleton, so T(2,0,1).to_sptensor().squeeze() has shape (2,) (2 cells out of 0) and
 # shape (1,0) / (0,) answer with the scalar 0.0; tensor.squeeze answers (2,0) / (0,).  Trigger = exactly squeeze_sp on a shape
 # with a 0.  Proposed fixes/C07-N-C07-7.diff.
@@ -2061,7 +2095,7 @@ def _trig_sq_sp_zero(c):
     return c.op == "squeeze_sp" and 0 in c.args["shape"]
 
 
-TRIGGERS = {"squeeze_sparse_zero_mode": _trig_sq_sp_zero}
+TRIGGERS = {"squeeze_sparse_zero_mode": _trig_sq_sp_zero} if N7_OPEN else {}
 
 
 def _wit_sq_sp_zero():
@@ -2077,4 +2111,4 @@ def _wit_sq_sp_zero():
     return f"tensor(np.zeros((2,0,1))).to_sptensor().squeeze() returned {('shape ' + str(tuple(int(d) for d in R.shape))) if isinstance(R, ttb.sptensor) else repr(R)}, tensor.squeeze gives shape (2, 0)"
 
 
-WITNESSES = {"N-C07-7": _wit_sq_sp_zero}
+WITNESSES = {"N-C07-7": _wit_sq_sp_zero} if N7_OPEN else {}
